@@ -84,17 +84,28 @@ package npm
 
 // ---- shorthand desugaring (C05): the comparator pair each caret / tilde / x-range is rewritten to.  nv(s) is the parsed
 // base; the bounds are texts, read back by (*constraint).matches through NewVersion (that step is the bounded layer).
+// a partial base "X" or "X.Y" (node-semver): ^X.Y is >=X.Y.0 <(X+1).0.0-0, except ^0.Y, which is >=0.Y.0 <0.(Y+1).0-0;
+// ~X.Y is >=X.Y.0 <X.(Y+1).0-0 and ~X is >=X.0.0 <(X+1).0.0-0.  A full base goes through NewVersion as before.
+//@ func partialVersion
+//@   ensures shape: result3 ==> result0 >= 0 && result1 >= 0 && (result2 == 1 || result2 == 2) && (result2 == 1 ==> result1 == 0)   [C05]
+//@   ensures none: !result3 ==> result2 == 0   [C05]
 //@ func parseCaretRange
-//@   ensures rejects-bad-base: theEcosystem().NewVersion(version).1 != nil ==> result1 != nil   [C05]
-//@   ensures pair: theEcosystem().NewVersion(version).1 == nil ==> result1 == nil && len(result0) == 2 && result0[0] != nil && result0[1] != nil && result0[0].operator == ">=" && result0[1].operator == "<" && result0[0].version == theEcosystem().NewVersion(version).0.normalize()   [C05]
-//@   ensures upper-major: theEcosystem().NewVersion(version).1 == nil && theEcosystem().NewVersion(version).0.major != 0 && theEcosystem().NewVersion(version).0.major < 9223372036854775807 ==> result0[1].version == itoa(theEcosystem().NewVersion(version).0.major + 1) + ".0.0-0"   [C05]
-//@   ensures upper-minor: theEcosystem().NewVersion(version).1 == nil && theEcosystem().NewVersion(version).0.major == 0 && theEcosystem().NewVersion(version).0.minor != 0 && theEcosystem().NewVersion(version).0.minor < 9223372036854775807 ==> result0[1].version == "0." + itoa(theEcosystem().NewVersion(version).0.minor + 1) + ".0-0"   [C05]
-//@   ensures upper-patch: theEcosystem().NewVersion(version).1 == nil && theEcosystem().NewVersion(version).0.major == 0 && theEcosystem().NewVersion(version).0.minor == 0 && theEcosystem().NewVersion(version).0.patch < 9223372036854775807 ==> result0[1].version == "0.0." + itoa(theEcosystem().NewVersion(version).0.patch + 1) + "-0"   [C05]
+//@   ensures rejects-bad-base: !partialVersion(version).3 && theEcosystem().NewVersion(version).1 != nil ==> result1 != nil   [C05]
+//@   ensures pair: !partialVersion(version).3 && theEcosystem().NewVersion(version).1 == nil ==> result1 == nil && len(result0) == 2 && result0[0] != nil && result0[1] != nil && result0[0].operator == ">=" && result0[1].operator == "<" && result0[0].version == theEcosystem().NewVersion(version).0.normalize()   [C05]
+//@   ensures upper-major: !partialVersion(version).3 && theEcosystem().NewVersion(version).1 == nil && theEcosystem().NewVersion(version).0.major != 0 && theEcosystem().NewVersion(version).0.major < 9223372036854775807 ==> result0[1].version == itoa(theEcosystem().NewVersion(version).0.major + 1) + ".0.0-0"   [C05]
+//@   ensures upper-minor: !partialVersion(version).3 && theEcosystem().NewVersion(version).1 == nil && theEcosystem().NewVersion(version).0.major == 0 && theEcosystem().NewVersion(version).0.minor != 0 && theEcosystem().NewVersion(version).0.minor < 9223372036854775807 ==> result0[1].version == "0." + itoa(theEcosystem().NewVersion(version).0.minor + 1) + ".0-0"   [C05]
+//@   ensures upper-patch: !partialVersion(version).3 && theEcosystem().NewVersion(version).1 == nil && theEcosystem().NewVersion(version).0.major == 0 && theEcosystem().NewVersion(version).0.minor == 0 && theEcosystem().NewVersion(version).0.patch < 9223372036854775807 ==> result0[1].version == "0.0." + itoa(theEcosystem().NewVersion(version).0.patch + 1) + "-0"   [C05]
+//@   ensures partial-pair: partialVersion(version).3 ==> result1 == nil && len(result0) == 2 && result0[0] != nil && result0[1] != nil && result0[0].operator == ">=" && result0[1].operator == "<" && result0[0].version == itoa(partialVersion(version).0) + "." + itoa(partialVersion(version).1) + ".0"   [C05]
+//@   ensures partial-zero-minor: partialVersion(version).3 && partialVersion(version).0 == 0 && partialVersion(version).2 == 2 && partialVersion(version).1 < 9223372036854775807 ==> result0[1].version == "0." + itoa(partialVersion(version).1 + 1) + ".0-0"   [C05]
+//@   ensures partial-major: partialVersion(version).3 && !(partialVersion(version).0 == 0 && partialVersion(version).2 == 2) && partialVersion(version).0 < 9223372036854775807 ==> result0[1].version == itoa(partialVersion(version).0 + 1) + ".0.0-0"   [C05]
 
 //@ func parseTildeRange
-//@   ensures rejects-bad-base: theEcosystem().NewVersion(version).1 != nil ==> result1 != nil   [C05]
-//@   ensures pair: theEcosystem().NewVersion(version).1 == nil ==> result1 == nil && len(result0) == 2 && result0[0] != nil && result0[1] != nil && result0[0].operator == ">=" && result0[1].operator == "<" && result0[0].version == theEcosystem().NewVersion(version).0.normalize()   [C05]
-//@   ensures upper-minor: theEcosystem().NewVersion(version).1 == nil && theEcosystem().NewVersion(version).0.minor < 9223372036854775807 ==> result0[1].version == itoa(theEcosystem().NewVersion(version).0.major) + "." + itoa(theEcosystem().NewVersion(version).0.minor + 1) + ".0-0"   [C05]
+//@   ensures rejects-bad-base: !partialVersion(version).3 && theEcosystem().NewVersion(version).1 != nil ==> result1 != nil   [C05]
+//@   ensures pair: !partialVersion(version).3 && theEcosystem().NewVersion(version).1 == nil ==> result1 == nil && len(result0) == 2 && result0[0] != nil && result0[1] != nil && result0[0].operator == ">=" && result0[1].operator == "<" && result0[0].version == theEcosystem().NewVersion(version).0.normalize()   [C05]
+//@   ensures upper-minor: !partialVersion(version).3 && theEcosystem().NewVersion(version).1 == nil && theEcosystem().NewVersion(version).0.minor < 9223372036854775807 ==> result0[1].version == itoa(theEcosystem().NewVersion(version).0.major) + "." + itoa(theEcosystem().NewVersion(version).0.minor + 1) + ".0-0"   [C05]
+//@   ensures partial-pair: partialVersion(version).3 ==> result1 == nil && len(result0) == 2 && result0[0] != nil && result0[1] != nil && result0[0].operator == ">=" && result0[1].operator == "<" && result0[0].version == itoa(partialVersion(version).0) + "." + itoa(partialVersion(version).1) + ".0"   [C05]
+//@   ensures partial-minor: partialVersion(version).3 && partialVersion(version).2 == 2 && partialVersion(version).1 < 9223372036854775807 ==> result0[1].version == itoa(partialVersion(version).0) + "." + itoa(partialVersion(version).1 + 1) + ".0-0"   [C05]
+//@   ensures partial-major: partialVersion(version).3 && partialVersion(version).2 != 2 && partialVersion(version).0 < 9223372036854775807 ==> result0[1].version == itoa(partialVersion(version).0 + 1) + ".0.0-0"   [C05]
 
 //@ spec wild(p string) bool = p == "x" || p == "X" || p == "*"
 //@ func parseXRange
@@ -103,9 +114,15 @@ package npm
 //@   ensures major-range: len(strings.Split(rangeStr, ".")) >= 2 && strconv.Atoi(strings.Split(rangeStr, ".")[0]).1 == nil && strconv.Atoi(strings.Split(rangeStr, ".")[0]).0 < 9223372036854775807 && wild(strings.Split(rangeStr, ".")[1]) && (len(strings.Split(rangeStr, ".")) == 2 || (len(strings.Split(rangeStr, ".")) == 3 && wild(strings.Split(rangeStr, ".")[2]))) ==> result1 == nil && len(result0) == 2 && result0[0].operator == ">=" && result0[0].version == itoa(strconv.Atoi(strings.Split(rangeStr, ".")[0]).0) + ".0.0-0" && result0[1].operator == "<" && result0[1].version == itoa(strconv.Atoi(strings.Split(rangeStr, ".")[0]).0 + 1) + ".0.0-0"   [C05]
 //@   ensures minor-range: len(strings.Split(rangeStr, ".")) == 3 && strconv.Atoi(strings.Split(rangeStr, ".")[0]).1 == nil && !wild(strings.Split(rangeStr, ".")[1]) && wild(strings.Split(rangeStr, ".")[2]) && strconv.Atoi(strings.Split(rangeStr, ".")[1]).1 == nil && strconv.Atoi(strings.Split(rangeStr, ".")[1]).0 < 9223372036854775807 ==> result1 == nil && len(result0) == 2 && result0[0].operator == ">=" && result0[0].version == itoa(strconv.Atoi(strings.Split(rangeStr, ".")[0]).0) + "." + itoa(strconv.Atoi(strings.Split(rangeStr, ".")[1]).0) + ".0-0" && result0[1].operator == "<" && result0[1].version == itoa(strconv.Atoi(strings.Split(rangeStr, ".")[0]).0) + "." + itoa(strconv.Atoi(strings.Split(rangeStr, ".")[1]).0 + 1) + ".0-0"   [C05]
 
+//@ spec hyLo(rangeStr string) string = strings.TrimSpace(strings.Split(rangeStr, " - ")[0])
+//@ spec hyHi(rangeStr string) string = strings.TrimSpace(strings.Split(rangeStr, " - ")[1])
 //@ func parseHyphenRange
-//@   ensures pair: result1 == nil ==> len(strings.Split(rangeStr, " - ")) == 2 && len(result0) == 2 && result0[0].operator == ">=" && result0[0].version == strings.TrimSpace(strings.Split(rangeStr, " - ")[0]) && result0[1].operator == "<=" && result0[1].version == strings.TrimSpace(strings.Split(rangeStr, " - ")[1])   [C05]
-//@   ensures valid-bounds: result1 == nil ==> theEcosystem().NewVersion(strings.TrimSpace(strings.Split(rangeStr, " - ")[0])).1 == nil && theEcosystem().NewVersion(strings.TrimSpace(strings.Split(rangeStr, " - ")[1])).1 == nil   [C05]
+//@   ensures shape: result1 == nil ==> len(strings.Split(rangeStr, " - ")) == 2 && len(result0) == 2 && result0[0] != nil && result0[1] != nil && result0[0].operator == ">="   [C05]
+//@   ensures full-lower: result1 == nil && !partialVersion(hyLo(rangeStr)).3 ==> result0[0].version == hyLo(rangeStr) && theEcosystem().NewVersion(hyLo(rangeStr)).1 == nil   [C05]
+//@   ensures full-upper: result1 == nil && !partialVersion(hyHi(rangeStr)).3 ==> result0[1].operator == "<=" && result0[1].version == hyHi(rangeStr) && theEcosystem().NewVersion(hyHi(rangeStr)).1 == nil   [C05]
+//@   ensures partial-lower: result1 == nil && partialVersion(hyLo(rangeStr)).3 ==> result0[0].version == itoa(partialVersion(hyLo(rangeStr)).0) + "." + itoa(partialVersion(hyLo(rangeStr)).1) + ".0"   [C05]
+//@   ensures partial-upper-minor: result1 == nil && partialVersion(hyHi(rangeStr)).3 && partialVersion(hyHi(rangeStr)).2 == 2 && partialVersion(hyHi(rangeStr)).1 < 9223372036854775807 ==> result0[1].operator == "<" && result0[1].version == itoa(partialVersion(hyHi(rangeStr)).0) + "." + itoa(partialVersion(hyHi(rangeStr)).1 + 1) + ".0-0"   [C05]
+//@   ensures partial-upper-major: result1 == nil && partialVersion(hyHi(rangeStr)).3 && partialVersion(hyHi(rangeStr)).2 != 2 && partialVersion(hyHi(rangeStr)).0 < 9223372036854775807 ==> result0[1].operator == "<" && result0[1].version == itoa(partialVersion(hyHi(rangeStr)).0 + 1) + ".0.0-0"   [C05]
 
 // lifting to whole ranges (C20): an OR of AND groups treats versions that compare equal alike (the two sides are what
 // Contains returns for v1 and v2, by its or-of-and clause)
